@@ -160,7 +160,7 @@ def ev(e, env):
         if d in ("hasattr",) and len(e.args) == 2:
             o = ev(e.args[0], env)
             nm = ev(e.args[1], env)
-            if isinstance(o, Obj):
+            if isinstance(o, (Obj, Fake)):
                 return nm in o.attrs
         if d in ("TypeError", "ValueError"):
             return d
